@@ -20,6 +20,9 @@ macro_rules! dispatch_hasher {
         } else if n == <$crate::types::CollideAll as $crate::types::HB>::NAME {
             type $H = $crate::types::CollideAll;
             $body
+        } else if n == <$crate::types::CollideSome as $crate::types::HB>::NAME {
+            type $H = $crate::types::CollideSome;
+            $body
         } else if n == <$crate::types::Seeded as $crate::types::HB>::NAME {
             type $H = $crate::types::Seeded;
             $body
